@@ -68,6 +68,10 @@ func c10Wire(c c10Cmd, dir string, rng *rand.Rand) (wire string, payload string)
 	query := map[string]string{"valid": "select count($line) group by $hostname", "empty": "", "blank": " ", "lonebackquote": "select ` from x",
 		"unknownkeyword": "frobnicate the logs", "truncated": "select count($line) from", "badlogformat": "select count($line) logformat nosuchformat",
 		"unknownagg": "select median($x)",
+		"orderkeyword1": "select count($line) from STATS order by limit 10", "orderkeyword2": "select count($line) rorder by interval 1",
+		"orderkeyword3": "select count($line) order limit 10",
+		"clausekeyword": []string{"select count($line) where group by $hostname", "select count($line) set group by $hostname", "select count($line) group by order by count($line)",
+			"select count($line) from where $x eq 1", "select from STATS", "select count($line) limit outfile x.csv", "select count($line) outfile limit 3"}[rng.Intn(7)],
 		"quotedbackquote": []string{"select count($line) where $line contains \"`\"", "select count($line) set $x = \"`\" group by $hostname",
 			"select count($line) where \"`\" eq $line"}[rng.Intn(3)],
 		"quotedkeyword": []string{"select count($line) where $line eq \"limit\"", "select count($line) set $x = \"group\"", "select count($line) outfile \"select\""}[rng.Intn(3)],
